@@ -63,6 +63,10 @@ func vh_C18_cache() {
 	w := vWorldSmall()
 	ref, rerr, log0 := vExpandDef(w, "A", nil)
 	vAssert(vLoadedAtMostOnce(log0), "without a cache: a document is requested from the loader more than once in one expansion")
+	// no cache means no memory: the same call again asks the loader for the same documents and gives the same result
+	ref2, rerr2, log0b := vExpandDef(w, "A", nil)
+	vAssert(vSameLog(log0, log0b), "without a cache: a second identical expansion does not ask the loader for the same documents (something was remembered)")
+	vAssert((rerr == nil) == (rerr2 == nil) && (rerr != nil || vJSONBytesEq(ref, ref2)), "without a cache: a second identical expansion gives another result")
 	var cache ResolutionCache
 	preloaded := map[string]bool{}
 	switch vChoose(3, "cachestate") {
